@@ -3,8 +3,13 @@
 # Re-runs the quick checks recorded in seeded/<name>/meta.json against the
 # seeded change applied to a scratch worktree of its base commit.
 set -u
-name=$1; base=${2:-7ba66f1}
+name=$1
 d=/verif/seeded/$name
+# /repo HEAD if the patch still applies there, else the commit it was written against
+if [ -n "${2:-}" ]; then base=$2
+elif git -C /repo apply --check $d/patch.diff 2>/dev/null; then base=HEAD
+else base=7ba66f1; fi
+echo "$name base=$base"
 wt=/tmp/recheck-$name
 git -C /repo worktree remove --force $wt 2>/dev/null
 git -C /repo worktree add --detach -q $wt $base || exit 2
